@@ -310,11 +310,11 @@ impl Monitor for C13 {
         "C13"
     }
     fn plan(&self, cfg: &Cfg) -> u64 {
-        (3 * SHAPES.len()) as u64 * cfg.tier.pick(4, 32) + 2
+        (3 * SHAPES.len()) as u64 * cfg.tier.pick(4, 96) + 2
     }
     fn trial(&self, cfg: &Cfg, idx: u64, out: &mut TrialOut) {
         let mut rng = Rng::for_trial(cfg.seed, "C13", idx);
-        let main = (3 * SHAPES.len()) as u64 * cfg.tier.pick(4, 32);
+        let main = (3 * SHAPES.len()) as u64 * cfg.tier.pick(4, 96);
         if idx >= main {
             // "millions of values": two streams beyond 2^24 values (where a count kept in f32 stalls)
             let vi = if idx == main { 0 } else { 1 };
